@@ -101,7 +101,10 @@ def run(ctx, owned=OWNED):
     rnd = random.Random(ctx.seed)
     if tier == "quick" and len(trs) > 70:
         trs = [trs[0]] + rnd.sample(trs[1:], 69)
-    per = (4, 5, 3) if tier == "quick" else (12, 20, 12)
+    elif tier == "thorough" and len(trs) > 600:
+        # every tree x 44 behaviours x 2 universes took more than 2.5 h of 16 cores; 600 trees x 28 behaviours stay within ~20 min
+        trs = [trs[0]] + rnd.sample(trs[1:], 599)
+    per = (4, 5, 3) if tier == "quick" else (8, 12, 8)
     jobs = []
     jid = 0
     fams = ["elec", "eph", "spin", "multi"]
